@@ -102,7 +102,7 @@ def run(ctx):
     ctx.sample({"real_events": [_strip(e) for e in sessions[0]["events"][:4]]})
 
     # ---- P-VALIDATE: long random histories
-    n, ln = (32, 40) if q else (160, 80)
+    n, ln = (16, 30) if q else (160, 80)
     rec = ctx.driver(b, ["record", str(n), str(ln)], timeout=3000)
     rec = sorted([o for o in rec if "trace" in o], key=lambda o: o["trace"])
     if len(rec) != n:
